@@ -123,6 +123,12 @@ fn ab(x: &Sx) -> R<AB> {
         ("periodic", [t]) => Rc::new(arrival::Periodic::new(dur(t)?)),
         ("sporadic", [t, j]) => Rc::new(arrival::Sporadic::new(dur(t)?, dur(j)?)),
         ("never", []) => Rc::new(arrival::Never {}),
+        // ApproximatedPoisson::new(RN / RD, EN / ED): not part of the Coq model (floating point); used by
+        // direct oracles only
+        ("apoisson", [rn, rd, en, ed]) => Rc::new(arrival::ApproximatedPoisson::new(
+            rn.num()? as f64 / rd.num()? as f64,
+            en.num()? as f64 / ed.num()? as f64,
+        )),
         ("curve", [c]) => Rc::new(curve(c)?),
         ("extrap", [c]) => Rc::new(arrival::ExtrapolatingCurve::new(curve(c)?)),
         ("prefix", [p]) => Rc::new(prefix(p)?),
